@@ -29,7 +29,7 @@ OPS = {"deepcopy", "deepcopyx", "clone"}
 
 _FLT = re.compile(r"(\()?\(f (32|64) (\d+)\)")
 _PP = re.compile(r"\(p \d+ \(p \d+ ")
-_CPX = re.compile(r"\(c (32|64) (\d+) (\d+)\)")
+_CPX = re.compile(r"(\()?\(c (32|64) (\d+) (\d+)\)")
 
 
 def _nan(w, bits):
@@ -67,8 +67,11 @@ def nan_profile(src):
             else:
                 leaf = True
     for m in _CPX.finditer(src):
-        if _nan(m.group(1), m.group(2)) or _nan(m.group(1), m.group(3)):
-            leaf = True
+        if _nan(m.group(2), m.group(3)) or _nan(m.group(2), m.group(4)):
+            if m.group(1):
+                key = True
+            else:
+                leaf = True
     return key, leaf
 
 
@@ -145,8 +148,8 @@ def run(rep):
     rep.cov["rule"] = ("every pointer / slice / map type of the corpus that plugin/deepcopy supports x every pool source (and "
                        "single-position mutations) x prior destinations (pointer to zero and to populated values, also with NaN keys "
                        "in their float-keyed maps, equal-length slices with 0..2 spare capacity and unrelated contents, empty map); "
-                       "every such source again with two NaN keys (different payloads, different values) in each of its float-keyed "
-                       "maps, and again with every float leaf a NaN of its own payload; clone over every supported type and the same "
+                       "every such source again with three NaN keys (different payloads; a non-nil / non-empty value, a nil one, another "
+                       "non-trivial one) in each of its float- or complex-keyed maps, and again with every float leaf a NaN of its own payload; clone over every supported type and the same "
                        "three kinds of sources; deepcopyx (correspondence only): nil sources, and top-level maps copied into "
                        "populated maps that share keys with the source (also with NaN keys on both sides); "
                        "distinct = distinct op lines with a non-nil container")
